@@ -35,6 +35,14 @@ def die_on_7(x):
     return x * x
 
 
+def by_uid(uid, x):
+    # a worker-specific failure: the worker with userid 0 dies on whatever it is given
+    if uid == 0:
+        raise RuntimeError('worker 0 always fails')
+    time.sleep(0.01)
+    return x * x
+
+
 def scenario(sc):
     name = sc.get('name', 'late_result')
     out = {'scenario': sc}
@@ -118,6 +126,24 @@ def scenario(sc):
                         res['poolerror'] = True
                         res['partial'] = e.partial_results
                         res['alive_at_poolerror'] = [w.is_alive() for w in ws]
+            elif name == 'death_restart_death':
+                # ids of workers that died in an earlier run stay in Pool._closed across restart_workers(): they are not workers of the new generation.
+                # run 1: worker 0 dies, worker 1 finishes; restart_workers(); run 2: worker 0 dies again, worker 1 must finish again - no PoolError
+                with Pool(by_uid, retry=True) as p:
+                    ws = [p.add_worker(PersistentThreadWorker, userid=i) for i in range(2)]
+
+                    def enq(w, x):
+                        w.enqueue(w.userid, x)
+                        return True
+                    r1 = p.run(iter(range(6)), enqueue_fn=enq)
+                    p.restart_workers()
+                    try:
+                        res['ret'] = (r1 or []) + (p.run(iter(range(6, 12)), enqueue_fn=enq) or [])
+                        res['expect'] = sorted(x * x for x in range(12))
+                    except PoolError as e:
+                        res['poolerror'] = True
+                        res['partial'] = e.partial_results
+                        res['alive_at_poolerror'] = [w.is_alive() for w in ws]
             elif name == 'dead_before_run_noretry':
                 handed = []
                 with Pool(sq, retry=False) as p:
@@ -156,7 +182,7 @@ def scenario(sc):
         viol.append(f"results {sorted(res['ret'] or [])} != one per input {res['expect']}")
     if res.get('never_handed'):
         viol.append(f"retry off: inputs {res['never_handed']} are missing from the result although they were never handed to any worker")
-    if sc.get('check_poolerror', name in ('refuse_poolerror', 'dead_first_worker')) and res.get('poolerror') and any(res.get('alive_at_poolerror', [])):
+    if sc.get('check_poolerror', name in ('refuse_poolerror', 'dead_first_worker', 'death_restart_death')) and res.get('poolerror') and any(res.get('alive_at_poolerror', [])):
         viol.append(f"PoolError raised while workers are alive: {res.get('alive_at_poolerror')}, partial {res.get('partial')}")
     out.update(violates=bool(viol), violations=viol, observed={k: v for k, v in res.items() if k != 'calls'})
     return out
@@ -164,7 +190,7 @@ def scenario(sc):
 
 def main():
     sc = json.loads(sys.argv[1])
-    names = [sc['name']] if sc.get('name') else ['late_result', 'refuse_livelock', 'refuse_orphan', 'dead_before_run_noretry', 'dead_first_worker', 'enqueue_raises_once', 'plain']
+    names = [sc['name']] if sc.get('name') else ['late_result', 'refuse_livelock', 'refuse_orphan', 'dead_before_run_noretry', 'dead_first_worker', 'death_restart_death', 'enqueue_raises_once', 'plain']
     outs = []
     for n in names:
         o = scenario(dict(sc, name=n))
